@@ -259,6 +259,33 @@ def run(chk):
         al = monitor_sends(sc, sent)
         if al and not any(v[0] == "monitor:" + al[0][0] for v in chk.violations):
             chk.violation("monitor:" + al[0][0], al[0][1], {"kind": "monitor", "cancel_scenario": sc, "sent": sent})
+    # 2c. slow limiters (a token per day or week, fractional rates) hit by a burst: waits of days, through wait()
+    for k in range(common.tier_n(chk.tier, 6, 60)):
+        period = rnd3.choice([86400, 604800, 3 * 86400, 250000])
+        sc = {"tp": rnd3.choice([1, 1, 2]), "pd": period, "ini": rnd3.choice([0, 1]),
+              "arrivals": [0.0] * rnd3.randint(3, 6) + [float(period)] * rnd3.randint(0, 2), "cancels": []}
+        sent = run_cancel_scenario(sc)
+        chk.count("slow_limiter_scenarios")
+        al = monitor_sends(sc, sent)
+        if len(sent) != len(sc["arrivals"]):
+            al = al or [("waiter-never-released", f"{len(sc['arrivals']) - len(sent)} waiters of a slow limiter never got through")]
+        if al and not any(v[0] == "monitor:" + al[0][0] for v in chk.violations):
+            chk.violation("monitor:" + al[0][0], al[0][1] + " (slow limiter: one period = %s s)" % period,
+                          {"kind": "monitor", "cancel_scenario": sc, "sent": sent})
+    # 2d. the clients that hold a limiter: what reaches the server obeys the bound (real time, loopback server)
+    from harness import wire_driver as wd
+    for name, fn in (("binance", wd.run_binance), ("bitstamp", wd.run_bitstamp)):
+        res = asyncio.run(fn(common.rng_for(chk.seed, "C20-clients"), with_tb=True))
+        at = sorted(r["received_ms"] / 1000.0 for _, reqs, _ in res for r in reqs)
+        chk.count("client_requests_through_limiter", len(at))
+        sc = {"tp": 1, "pd": 1.3, "ini": 1}           # the limiter run_binance / run_bitstamp give their client
+        # received_ms is rounded to the millisecond and taken on arrival: allow 50 ms of jitter per request
+        al = monitor_sends(sc, [t + 0.05 * i for i, t in enumerate(at)])
+        if al and not any(v[0] == "monitor:client-ignores-limiter" for v in chk.violations):
+            chk.violation("monitor:client-ignores-limiter",
+                          f"{name} client holding TokenBucketLimiter(1, 1.3, 1): requests reached the server at "
+                          f"{[round(t - at[0], 3) for t in at]} s -- {al[0][1]}",
+                          {"kind": "monitor", "client": name, "arrival_s": [t - at[0] for t in at]})
     # 3. classification of divergences: monitors already ran on every case; if none fired, the property is no
     #    longer shown: search harder, then report no-failing-input-found
     if diverged and not chk.violations:
